@@ -1,6 +1,835 @@
-//! C38 — not implemented yet.
+//! C38 — Vector distance functions compute their formulas.
+//!
+//! Code under test: `src/physical/vector.rs` (`distance_column`,
+//! `distance_columns`) directly, and the same kernels through SQL
+//! (`SELECT id, l2_distance(v, [..]) FROM t`, literal on either side, and the
+//! column/column form) via `physical/operators/filter.rs::evaluate_vector_distance`.
+//!
+//! Documented formulas (module doc of vector.rs):
+//!   l2_distance = sqrt(sum((a-b)^2)), cosine_similarity = dot/(|a||b|),
+//!   cosine_distance = 1 - cosine_similarity, dot_product = sum(a*b).
+//!
+//! Input domain: `FixedSizeList<Float32, d>` columns, d in 1..=1024, NULL rows,
+//! sliced. The kernels multiply and accumulate in f32 (8 lanes) before widening,
+//! so components are generated as exactly 0 or with 1e-15 <= |x| <= 1e15: inside
+//! that range no f32 product over/underflows and the stated tolerance is sound.
+//!
+//! Oracle: formulas evaluated in f64 on the generated f32 values with the
+//! tolerance `4·d·eps_f32·(sum of |terms|) + 1e-6` propagated through sqrt /
+//! the cosine quotient (see `reference`). NULL row => NULL; slice of the column
+//! => exactly the slice of the full result; dimension mismatch => Err.
+//! Zero-norm cosine: the formula is 0/0; vector.rs documents no convention in
+//! words (the code returns similarity 0), so only "finite, and distance =
+//! 1 - similarity" is asserted and the observed value is labelled.
 use super::Property;
+use crate::engine::{panic_text, run_sql_full};
+use crate::runner::*;
+use arrow::array::*;
+use arrow::buffer::{NullBuffer, ScalarBuffer};
+use arrow::datatypes::{DataType, Field, Schema};
+use arrow::record_batch::RecordBatch;
+use proptest::prelude::*;
+use query_engine::physical::vector::{distance_column, distance_columns, DistanceKind};
+use query_engine::ExecutionContext;
+use serde::{Deserialize, Deserializer, Serialize, Serializer};
+use std::sync::Arc;
+
+/// f32 that survives JSON exactly (shortest `{:?}` text, parsed back as f32).
+#[derive(Clone, Copy, Debug)]
+pub struct F(pub f32);
+impl Serialize for F {
+    fn serialize<S: Serializer>(&self, s: S) -> Result<S::Ok, S::Error> {
+        s.serialize_str(&format!("{:?}", self.0))
+    }
+}
+impl<'de> Deserialize<'de> for F {
+    fn deserialize<D: Deserializer<'de>>(d: D) -> Result<F, D::Error> {
+        let s = String::deserialize(d)?;
+        s.parse::<f32>().map(F).map_err(serde::de::Error::custom)
+    }
+}
+
+#[derive(Clone, Copy, Debug, PartialEq, Eq, Serialize, Deserialize)]
+pub enum Kind {
+    L2,
+    CosDist,
+    CosSim,
+    Dot,
+}
+impl Kind {
+    fn engine(self) -> DistanceKind {
+        match self {
+            Kind::L2 => DistanceKind::L2,
+            Kind::CosDist => DistanceKind::Cosine,
+            Kind::CosSim => DistanceKind::CosineSimilarity,
+            Kind::Dot => DistanceKind::Dot,
+        }
+    }
+    fn sql(self) -> &'static str {
+        match self {
+            Kind::L2 => "l2_distance",
+            Kind::CosDist => "cosine_distance",
+            Kind::CosSim => "cosine_similarity",
+            Kind::Dot => "dot_product",
+        }
+    }
+}
+
+#[derive(Clone, Debug, Serialize, Deserialize)]
+pub struct VRow {
+    pub valid: bool,
+    /// physical components (present also under a NULL row)
+    pub v: Vec<F>,
+}
+
+#[derive(Clone, Debug, Serialize, Deserialize)]
+pub struct VecCol {
+    pub dim: usize,
+    pub rows: Vec<VRow>,
+}
+impl VecCol {
+    fn well_formed(&self) -> bool {
+        self.dim >= 1 && self.rows.iter().all(|r| r.v.len() == self.dim)
+    }
+    fn in_domain(&self) -> bool {
+        self.rows.iter().all(|r| r.v.iter().all(|x| ok_component(x.0)))
+    }
+    fn build(&self) -> ArrayRef {
+        let mut flat: Vec<f32> = Vec::with_capacity(self.rows.len() * self.dim);
+        for r in &self.rows {
+            flat.extend(r.v.iter().map(|x| x.0));
+        }
+        let child = Float32Array::new(ScalarBuffer::from(flat), None);
+        let nulls = if self.rows.iter().all(|r| r.valid) {
+            None
+        } else {
+            Some(NullBuffer::from(self.rows.iter().map(|r| r.valid).collect::<Vec<bool>>()))
+        };
+        Arc::new(
+            FixedSizeListArray::try_new(
+                Arc::new(Field::new("item", DataType::Float32, true)),
+                self.dim as i32,
+                Arc::new(child),
+                nulls,
+            )
+            .expect("fixed size list"),
+        )
+    }
+    fn row(&self, i: usize) -> Vec<f32> {
+        self.rows[i].v.iter().map(|x| x.0).collect()
+    }
+}
+
+fn ok_component(x: f32) -> bool {
+    x == 0.0 || (x.is_finite() && x.abs() >= 1e-15 && x.abs() <= 1e15)
+}
+
+/// reference value, tolerance, and whether the cosine denominator is zero
+struct Ref {
+    value: f64,
+    tol: f64,
+    zero_norm: bool,
+}
+
+fn reference(kind: Kind, a: &[f32], b: &[f32]) -> Ref {
+    let d = a.len() as f64;
+    let eps = f32::EPSILON as f64;
+    let k = 4.0 * d * eps;
+    let mut dot = 0f64;
+    let mut abs_dot = 0f64;
+    let mut na = 0f64;
+    let mut nb = 0f64;
+    let mut s = 0f64;
+    for (x, y) in a.iter().zip(b) {
+        let (x, y) = (*x as f64, *y as f64);
+        dot += x * y;
+        abs_dot += (x * y).abs();
+        na += x * x;
+        nb += y * y;
+        s += (x - y) * (x - y);
+    }
+    match kind {
+        Kind::Dot => Ref { value: dot, tol: k * abs_dot + 1e-6, zero_norm: false },
+        // |sqrt(S') - sqrt(S)| <= |S'-S| / sqrt(S) with |S'-S| <= k*S
+        Kind::L2 => Ref { value: s.sqrt(), tol: k * s.sqrt() + 1e-6, zero_norm: false },
+        Kind::CosSim | Kind::CosDist => {
+            let denom = na.sqrt() * nb.sqrt();
+            if denom == 0.0 {
+                return Ref { value: f64::NAN, tol: 0.0, zero_norm: true };
+            }
+            let sim = dot / denom;
+            // dot error k*abs_dot, each norm relative error <= k, quotient => 3 relative terms
+            let tol = k * abs_dot / denom + 3.0 * k * sim.abs() + 1e-6;
+            let value = if kind == Kind::CosSim { sim } else { 1.0 - sim };
+            Ref { value, tol, zero_norm: false }
+        }
+    }
+}
+
+fn f64_result(a: &ArrayRef) -> Result<Vec<Option<f64>>, String> {
+    let x = a
+        .as_any()
+        .downcast_ref::<Float64Array>()
+        .ok_or_else(|| format!("result is {:?}, expected Float64", a.data_type()))?;
+    Ok((0..x.len()).map(|i| if x.is_null(i) { None } else { Some(x.value(i)) }).collect())
+}
+
+fn same_bits(a: &Option<f64>, b: &Option<f64>) -> bool {
+    match (a, b) {
+        (None, None) => true,
+        (Some(x), Some(y)) => x.to_bits() == y.to_bits() || (x.is_nan() && y.is_nan()),
+        _ => false,
+    }
+}
+
+fn short(v: &[f32]) -> String {
+    if v.len() <= 12 {
+        format!("{:?}", v)
+    } else {
+        format!("{:?}… ({} dims, tail {:?})", &v[..6], v.len(), &v[v.len() - 3..])
+    }
+}
+
+/// Compare one kernel output row with the reference. `zn` collects the observed
+/// zero-norm convention.
+fn judge_row(kind: Kind, a: &[f32], b: &[f32], got: Option<f64>, what: &str, obs: &mut Obs) -> Result<(), String> {
+    let g = match got {
+        None => return Err(format!("{}: NULL result for two non-NULL vectors a={} b={}", what, short(a), short(b))),
+        Some(g) => g,
+    };
+    let r = reference(kind, a, b);
+    if r.zero_norm {
+        let l = format!("zero-norm:{:?}={:?}", kind, g);
+        if !obs.labels.contains(&l) {
+            obs.label(l);
+        }
+        if !g.is_finite() {
+            return Err(format!("{}: {:?} with a zero-norm vector returned {:?} (a={} b={})", what, kind, g, short(a), short(b)));
+        }
+        return Ok(());
+    }
+    if !((g - r.value).abs() <= r.tol) {
+        return Err(format!(
+            "{}: {:?}(a,b) = {:?} but the formula gives {:?} (|diff| {:e} > tolerance {:e}); a={} b={}",
+            what,
+            kind,
+            g,
+            r.value,
+            (g - r.value).abs(),
+            r.tol,
+            short(a),
+            short(b)
+        ));
+    }
+    Ok(())
+}
+
+// ---------------------------------------------------------------------------
+// generators
+// ---------------------------------------------------------------------------
+
+fn clamp_dom(x: f32) -> f32 {
+    if ok_component(x) {
+        x
+    } else if !x.is_finite() || x.abs() > 1e15 {
+        1e15f32.copysign(x)
+    } else {
+        0.0
+    }
+}
+
+fn component() -> BoxedStrategy<f32> {
+    prop_oneof![
+        2 => Just(0.0f32),
+        4 => (-192i32..193).prop_map(|k| k as f32 / 64.0),
+        3 => (-1.0f32..1.0),
+        2 => (-1000.0f32..1000.0),
+        1 => (any::<bool>(), -45i32..46, 1.0f32..2.0).prop_map(|(neg, e, m)| {
+            let v = m * 2f32.powi(e);
+            if neg { -v } else { v }
+        }),
+    ]
+    .prop_map(clamp_dom)
+    .boxed()
+}
+
+/// exactly representable in f32, f64 and short decimal text: k/64
+fn dyadic() -> BoxedStrategy<f32> {
+    prop_oneof![2 => Just(0.0f32), 6 => (-192i32..193).prop_map(|k| k as f32 / 64.0), 1 => (-65536i32..65537).prop_map(|k| k as f32 / 64.0)]
+        .boxed()
+}
+
+#[derive(Clone, Debug)]
+enum RowGen {
+    Free(Vec<f32>),
+    Zero,
+    SameAsQ,
+    NegQ,
+    /// q scaled by 2^e
+    ScaledQ(i32),
+    /// zero except the last component
+    SpikeLast(f32),
+    /// zero except one picked component
+    SpikeAt(u16, f32),
+}
+
+fn row_gen(dim: usize, comp: fn() -> BoxedStrategy<f32>) -> BoxedStrategy<RowGen> {
+    prop_oneof![
+        12 => proptest::collection::vec(comp(), dim).prop_map(RowGen::Free),
+        1 => Just(RowGen::Zero),
+        1 => Just(RowGen::SameAsQ),
+        1 => Just(RowGen::NegQ),
+        1 => (-3i32..4).prop_map(RowGen::ScaledQ),
+        1 => comp().prop_map(RowGen::SpikeLast),
+        1 => (any::<u16>(), comp()).prop_map(|(i, x)| RowGen::SpikeAt(i, x)),
+    ]
+    .boxed()
+}
+
+fn materialize(g: &RowGen, q: &[f32]) -> Vec<f32> {
+    let d = q.len();
+    match g {
+        RowGen::Free(v) => v.clone(),
+        RowGen::Zero => vec![0.0; d],
+        RowGen::SameAsQ => q.to_vec(),
+        RowGen::NegQ => q.iter().map(|x| -x).collect(),
+        RowGen::ScaledQ(e) => q.iter().map(|x| clamp_dom(x * 2f32.powi(*e))).collect(),
+        RowGen::SpikeLast(x) => {
+            let mut v = vec![0.0; d];
+            v[d - 1] = if *x == 0.0 { 1.0 } else { *x };
+            v
+        }
+        RowGen::SpikeAt(i, x) => {
+            let mut v = vec![0.0; d];
+            v[crate::data::pick_idx(*i, d)] = if *x == 0.0 { 1.0 } else { *x };
+            v
+        }
+    }
+}
+
+fn dim_strategy(tier: Tier) -> BoxedStrategy<usize> {
+    let big: BoxedStrategy<usize> = match tier {
+        Tier::Quick => prop_oneof![Just(383usize), Just(384), Just(385), Just(1023), Just(1024)].boxed(),
+        Tier::Thorough => prop_oneof![3 => prop_oneof![Just(383usize), Just(384), Just(385), Just(1023), Just(1024)], 2 => 301usize..1025].boxed(),
+    };
+    prop_oneof![
+        4 => 1usize..10,
+        4 => prop_oneof![Just(7usize), Just(8), Just(9), Just(15), Just(16), Just(17), Just(23), Just(24), Just(25), Just(33)],
+        2 => 10usize..65,
+        1 => 65usize..301,
+        1 => big,
+    ]
+    .boxed()
+}
+
+/// rows per column given the per-case float budget
+fn rows_strategy(dim: usize, budget: usize) -> BoxedStrategy<usize> {
+    let max = (budget / dim).clamp(1, 300);
+    prop_oneof![1 => Just(0usize), 2 => Just(1usize), 8 => 0..=max].boxed()
+}
+
+/// (query vector, column whose rows may be related to the query)
+fn col_and_query(dim: usize, n: usize, comp: fn() -> BoxedStrategy<f32>) -> BoxedStrategy<(Vec<f32>, VecCol)> {
+    (
+        prop_oneof![10 => proptest::collection::vec(comp(), dim), 1 => Just(vec![0.0f32; dim])],
+        proptest::collection::vec((row_gen(dim, comp), prop_oneof![5 => Just(true), 1 => Just(false)]), n),
+    )
+        .prop_map(move |(q, rows)| {
+            let rows = rows
+                .into_iter()
+                .map(|(g, valid)| VRow { valid, v: materialize(&g, &q).into_iter().map(F).collect() })
+                .collect();
+            (q, VecCol { dim, rows })
+        })
+        .boxed()
+}
+
+// ---------------------------------------------------------------------------
+// check 1: kernels directly
+// ---------------------------------------------------------------------------
+
+#[derive(Clone, Debug, Serialize, Deserialize)]
+pub enum Query {
+    /// literal query vector (its length may differ from the column's dimension: mismatch case)
+    Lit(Vec<F>),
+    /// second column (+ its own slice offset); rows beyond are padding
+    Col { col: VecCol, off: usize },
+}
+
+#[derive(Clone, Debug, Serialize, Deserialize)]
+pub struct KernelCase {
+    pub kind: Kind,
+    pub col: VecCol,
+    /// slice window of `col`
+    pub off: usize,
+    pub len: usize,
+    pub q: Query,
+}
+
+pub struct Kernels;
+impl Check for Kernels {
+    type Case = KernelCase;
+    fn name(&self) -> &'static str {
+        "kernels"
+    }
+    fn rule(&self) -> &'static str {
+        "equal dimensions, >=1 non-NULL row in the window, and (dimension not a multiple of 8, or a NULL row inside a properly sliced window)"
+    }
+    fn cases(&self, tier: Tier) -> u32 {
+        tier.pick(3000, 100_000)
+    }
+    fn strategy(&self, tier: Tier) -> BoxedStrategy<KernelCase> {
+        let budget = tier.pick(4096usize, 16384);
+        let kind = prop_oneof![Just(Kind::L2), Just(Kind::CosDist), Just(Kind::CosSim), Just(Kind::Dot)];
+        (kind, dim_strategy(tier))
+            .prop_flat_map(move |(kind, dim)| (Just(kind), Just(dim), rows_strategy(dim, budget)))
+            .prop_flat_map(move |(kind, dim, n)| {
+                (
+                    Just(kind),
+                    col_and_query(dim, n, component),
+                    // window selectors
+                    (any::<bool>(), any::<u16>(), any::<u16>()),
+                    // query form: 0 literal, 1 second column, 2 literal of wrong length, 3 column of wrong dim
+                    prop_oneof![10 => Just(0u8), 8 => Just(1u8), 1 => Just(2u8), 1 => Just(3u8)],
+                    // material for the second column: generated against the same query so related rows occur
+                    col_and_query(dim, n + 3, component),
+                    (0usize..4, 1usize..4, any::<bool>()),
+                )
+            })
+            .prop_map(|(kind, (qv, col), (slice, so, sl), form, (_q2, mut col2), (off2, delta, up))| {
+                let n = col.rows.len();
+                let (off, len) = if slice && n > 0 {
+                    let off = crate::data::pick_idx(so, n + 1);
+                    let len = crate::data::pick_idx(sl, n - off + 1);
+                    (off, len)
+                } else {
+                    (0, n)
+                };
+                let dim = col.dim;
+                let q = match form {
+                    0 => Query::Lit(qv.into_iter().map(F).collect()),
+                    1 => Query::Col { col: col2, off: off2.min(3) },
+                    2 => {
+                        let mut v = qv;
+                        if up || dim == 1 {
+                            v.extend(std::iter::repeat(1.0).take(delta));
+                        } else {
+                            v.truncate(dim - delta.min(dim - 1));
+                        }
+                        Query::Lit(v.into_iter().map(F).collect())
+                    }
+                    _ => {
+                        let nd = if up || dim == 1 { dim + delta } else { dim - delta.min(dim - 1) };
+                        for r in col2.rows.iter_mut() {
+                            r.v.resize(nd, F(1.0));
+                        }
+                        col2.dim = nd;
+                        Query::Col { col: col2, off: off2.min(3) }
+                    }
+                };
+                KernelCase { kind, col, off, len, q }
+            })
+            .boxed()
+    }
+    fn test(&self, c: &KernelCase, obs: &mut Obs) -> Verdict {
+        let n = c.col.rows.len();
+        if !c.col.well_formed() || c.off + c.len > n {
+            return Verdict::Discard("malformed case".into());
+        }
+        if !c.col.in_domain() {
+            return Verdict::Discard("component outside the stated range".into());
+        }
+        let dim = c.col.dim;
+        let kind = c.kind;
+        obs.label(format!("kind:{:?}", kind));
+        obs.label(format!(
+            "dim:{}",
+            match dim {
+                1..=7 => "1-7",
+                8 => "8",
+                9..=64 => "9-64",
+                65..=300 => "65-300",
+                _ => ">300",
+            }
+        ));
+        obs.label(if dim % 8 == 0 { "dim%8==0" } else { "dim%8!=0" });
+        let sliced = c.off > 0 || c.len < n;
+        if sliced {
+            obs.label("sliced");
+        }
+        let full = c.col.build();
+        let window = full.slice(c.off, c.len);
+        let null_in_window = (c.off..c.off + c.len).any(|i| !c.col.rows[i].valid);
+        let valid_in_window = (c.off..c.off + c.len).any(|i| c.col.rows[i].valid);
+
+        match &c.q {
+            Query::Lit(q) => {
+                let q: Vec<f32> = q.iter().map(|x| x.0).collect();
+                if !q.iter().all(|x| ok_component(*x)) {
+                    return Verdict::Discard("component outside the stated range".into());
+                }
+                let call = |a: &ArrayRef| {
+                    std::panic::catch_unwind(std::panic::AssertUnwindSafe(|| distance_column(a, &q, kind.engine(), "v")))
+                        .map_err(panic_text)
+                };
+                if q.len() != dim {
+                    obs.label("form:literal-dimension-mismatch");
+                    return match call(&window) {
+                        Err(p) => Verdict::Fail(format!("distance_column panicked on a dimension mismatch: {}", p)),
+                        Ok(Err(_)) => Verdict::Pass,
+                        Ok(Ok(r)) => Verdict::Fail(format!(
+                            "dimension mismatch (column {} vs query {}) returned {} rows instead of an error",
+                            dim,
+                            q.len(),
+                            r.len()
+                        )),
+                    };
+                }
+                obs.label("form:literal");
+                let whole = match call(&full) {
+                    Err(p) => return Verdict::Fail(format!("distance_column panicked: {}", p)),
+                    Ok(Err(e)) => return Verdict::Fail(format!("distance_column failed on equal dimensions: {}", e)),
+                    Ok(Ok(r)) => match f64_result(&r) {
+                        Ok(v) => v,
+                        Err(e) => return Verdict::Fail(e),
+                    },
+                };
+                if whole.len() != n {
+                    return Verdict::Fail(format!("{} rows in, {} rows out", n, whole.len()));
+                }
+                for i in 0..n {
+                    let row = &c.col.rows[i];
+                    if !row.valid {
+                        if whole[i].is_some() {
+                            return Verdict::Fail(format!("row {} is a NULL vector but the result is {:?}", i, whole[i]));
+                        }
+                        continue;
+                    }
+                    if let Err(e) = judge_row(kind, &c.col.row(i), &q, whole[i], &format!("row {}", i), obs) {
+                        return Verdict::Fail(e);
+                    }
+                    // zero-norm: distance must be exactly 1 - similarity
+                    if matches!(kind, Kind::CosDist | Kind::CosSim) && reference(kind, &c.col.row(i), &q).zero_norm {
+                        let one = full.slice(i, 1);
+                        let sim = distance_column(&one, &q, DistanceKind::CosineSimilarity, "v").ok().and_then(|r| f64_result(&r).ok());
+                        let dist = distance_column(&one, &q, DistanceKind::Cosine, "v").ok().and_then(|r| f64_result(&r).ok());
+                        match (sim, dist) {
+                            (Some(s), Some(d)) if s.len() == 1 && d.len() == 1 => {
+                                let (s, d) = (s[0].unwrap_or(f64::NAN), d[0].unwrap_or(f64::NAN));
+                                if !((d - (1.0 - s)).abs() <= 1e-12) {
+                                    return Verdict::Fail(format!(
+                                        "zero-norm row {}: cosine_distance {:?} is not 1 - cosine_similarity {:?}",
+                                        i, d, s
+                                    ));
+                                }
+                            }
+                            _ => return Verdict::Fail("zero-norm row: kernels failed on a single-row slice".into()),
+                        }
+                    }
+                }
+                // slicing invariance
+                let part = match call(&window) {
+                    Err(p) => return Verdict::Fail(format!("distance_column panicked on a slice: {}", p)),
+                    Ok(Err(e)) => return Verdict::Fail(format!("distance_column failed on a slice: {}", e)),
+                    Ok(Ok(r)) => match f64_result(&r) {
+                        Ok(v) => v,
+                        Err(e) => return Verdict::Fail(e),
+                    },
+                };
+                if part.len() != c.len || !(0..c.len).all(|i| same_bits(&part[i], &whole[c.off + i])) {
+                    return Verdict::Fail(format!(
+                        "kernel on slice({}, {}) != slice of kernel on the whole column ({:?}, d={}):\n  on slice = {:?}\n  expected = {:?}",
+                        c.off,
+                        c.len,
+                        kind,
+                        dim,
+                        &part[..part.len().min(12)],
+                        &whole[c.off..(c.off + c.len).min(c.off + 12)]
+                    ));
+                }
+                obs.nontrivial(valid_in_window && (dim % 8 != 0 || (sliced && null_in_window)));
+                Verdict::Pass
+            }
+            Query::Col { col: rc, off: roff } => {
+                if !rc.well_formed() || !rc.in_domain() {
+                    return Verdict::Discard("malformed or out-of-range second column".into());
+                }
+                if roff + c.len > rc.rows.len() {
+                    return Verdict::Discard("second column shorter than the window".into());
+                }
+                let right_full = rc.build();
+                let right = right_full.slice(*roff, c.len);
+                let call = |a: &ArrayRef, b: &ArrayRef| {
+                    std::panic::catch_unwind(std::panic::AssertUnwindSafe(|| distance_columns(a, b, kind.engine())))
+                        .map_err(panic_text)
+                };
+                if rc.dim != dim {
+                    obs.label("form:column-dimension-mismatch");
+                    return match call(&window, &right) {
+                        Err(p) => Verdict::Fail(format!("distance_columns panicked on a dimension mismatch: {}", p)),
+                        Ok(Err(_)) => Verdict::Pass,
+                        Ok(Ok(r)) => Verdict::Fail(format!(
+                            "dimension mismatch ({} vs {}) returned {} rows instead of an error",
+                            dim,
+                            rc.dim,
+                            r.len()
+                        )),
+                    };
+                }
+                obs.label("form:column");
+                if *roff > 0 {
+                    obs.label("right-sliced");
+                }
+                let got = match call(&window, &right) {
+                    Err(p) => return Verdict::Fail(format!("distance_columns panicked: {}", p)),
+                    Ok(Err(e)) => return Verdict::Fail(format!("distance_columns failed on equal dimensions: {}", e)),
+                    Ok(Ok(r)) => match f64_result(&r) {
+                        Ok(v) => v,
+                        Err(e) => return Verdict::Fail(e),
+                    },
+                };
+                if got.len() != c.len {
+                    return Verdict::Fail(format!("{} rows in, {} rows out", c.len, got.len()));
+                }
+                let mut right_null = false;
+                for i in 0..c.len {
+                    let (l, r) = (&c.col.rows[c.off + i], &rc.rows[roff + i]);
+                    if !r.valid {
+                        right_null = true;
+                    }
+                    if !l.valid || !r.valid {
+                        if got[i].is_some() {
+                            return Verdict::Fail(format!(
+                                "row {}: a NULL vector operand but the result is {:?} (left valid {}, right valid {})",
+                                i, got[i], l.valid, r.valid
+                            ));
+                        }
+                        continue;
+                    }
+                    if let Err(e) = judge_row(kind, &c.col.row(c.off + i), &rc.row(roff + i), got[i], &format!("row {}", i), obs) {
+                        return Verdict::Fail(e);
+                    }
+                }
+                let any_pair_valid = (0..c.len).any(|i| c.col.rows[c.off + i].valid && rc.rows[roff + i].valid);
+                obs.nontrivial(
+                    any_pair_valid && (dim % 8 != 0 || ((sliced || *roff > 0) && (null_in_window || right_null))),
+                );
+                Verdict::Pass
+            }
+        }
+    }
+}
+
+// ---------------------------------------------------------------------------
+// check 2: through SQL
+// ---------------------------------------------------------------------------
+
+#[derive(Clone, Debug, Serialize, Deserialize)]
+pub struct SqlCase {
+    pub kind: Kind,
+    pub v: VecCol,
+    /// second vector column `w` (same number of rows)
+    pub w: VecCol,
+    /// batch boundaries of the registered in-memory table
+    pub cuts: Vec<usize>,
+    /// 0: f(v, lit)   1: f(lit, v)   2: f(v, w)
+    pub form: u8,
+    pub lit: Vec<F>,
+}
+
+fn lit_sql(v: &[f32]) -> String {
+    // components are k/512: "{:.9}" is their exact decimal expansion
+    let parts: Vec<String> = v
+        .iter()
+        .enumerate()
+        .map(|(i, x)| {
+            let s = format!("{:.9}", *x as f64);
+            let s = s.trim_end_matches('0');
+            match s.strip_suffix('.') {
+                // integers are spelled both ways by users
+                Some(int) if i % 2 == 0 => int.to_string(),
+                Some(int) => format!("{}.0", int),
+                None => s.to_string(),
+            }
+        })
+        .collect();
+    format!("[{}]", parts.join(", "))
+}
+
+pub struct ThroughSql;
+impl Check for ThroughSql {
+    type Case = SqlCase;
+    fn name(&self) -> &'static str {
+        "through_sql"
+    }
+    fn rule(&self) -> &'static str {
+        "equal dimensions, >=1 row with non-NULL operands, and (dimension not a multiple of 8, or a NULL row in a table split into >=2 batches)"
+    }
+    fn cases(&self, tier: Tier) -> u32 {
+        tier.pick(400, 10_000)
+    }
+    fn strategy(&self, tier: Tier) -> BoxedStrategy<SqlCase> {
+        let budget = tier.pick(1024usize, 4096);
+        let kind = prop_oneof![Just(Kind::L2), Just(Kind::CosDist), Just(Kind::CosSim), Just(Kind::Dot)];
+        let dim = prop_oneof![4 => 1usize..10, 3 => prop_oneof![Just(7usize), Just(8), Just(9), Just(16), Just(17)], 2 => 10usize..40, 1 => prop_oneof![Just(128usize), Just(385)]];
+        (kind, dim)
+            .prop_flat_map(move |(kind, dim)| (Just(kind), Just(dim), rows_strategy(dim, budget)))
+            .prop_flat_map(|(kind, dim, n)| {
+                (
+                    Just(kind),
+                    col_and_query(dim, n, dyadic),
+                    col_and_query(dim, n, dyadic),
+                    proptest::collection::vec(any::<u16>(), 0..4),
+                    // form; 3/4 = dimension mismatch (literal / column)
+                    prop_oneof![6 => Just(0u8), 3 => Just(1u8), 5 => Just(2u8), 1 => Just(3u8), 1 => Just(4u8)],
+                    1usize..3,
+                )
+            })
+            .prop_map(|(kind, (q, v), (_q2, mut w), cutsel, form, delta)| {
+                let n = v.rows.len();
+                let mut cuts: Vec<usize> = if n >= 2 { cutsel.iter().map(|s| 1 + crate::data::pick_idx(*s, n - 1)).collect() } else { vec![] };
+                cuts.sort();
+                cuts.dedup();
+                let mut lit = q;
+                let mut f = form;
+                if form == 3 {
+                    // longer or (when possible) shorter literal; either side of the call
+                    if delta == 1 || lit.len() == 1 {
+                        lit.extend(std::iter::repeat(1.0).take(delta));
+                        f = 0;
+                    } else {
+                        lit.truncate(lit.len() - 1);
+                        f = 1;
+                    }
+                }
+                if form == 4 {
+                    let nd = v.dim + delta;
+                    for r in w.rows.iter_mut() {
+                        r.v.resize(nd, F(1.0));
+                    }
+                    w.dim = nd;
+                    f = 2;
+                }
+                SqlCase { kind, v, w, cuts, form: f, lit: lit.into_iter().map(F).collect() }
+            })
+            .boxed()
+    }
+    fn test(&self, c: &SqlCase, obs: &mut Obs) -> Verdict {
+        let n = c.v.rows.len();
+        if !c.v.well_formed() || !c.w.well_formed() || c.w.rows.len() != n || c.form > 2 {
+            return Verdict::Discard("malformed case".into());
+        }
+        let lit: Vec<f32> = c.lit.iter().map(|x| x.0).collect();
+        let exact = |x: &f32| (x * 512.0).fract() == 0.0 && x.abs() <= 16384.0;
+        if !c.v.rows.iter().chain(c.w.rows.iter()).all(|r| r.v.iter().all(|x| exact(&x.0))) || !lit.iter().all(exact) {
+            return Verdict::Discard("SQL cases use k/512 components (exact in decimal text, f64 and f32)".into());
+        }
+        if c.cuts.iter().any(|x| *x == 0 || *x >= n.max(1)) || c.cuts.windows(2).any(|w| w[0] >= w[1]) {
+            return Verdict::Discard("malformed cuts".into());
+        }
+        let dim = c.v.dim;
+        obs.label(format!("kind:{:?}", c.kind));
+        obs.label(format!("form:{}", ["f(v,lit)", "f(lit,v)", "f(v,w)"][c.form as usize]));
+        obs.label(if dim % 8 == 0 { "dim%8==0" } else { "dim%8!=0" });
+        obs.label(format!("batches:{}", (c.cuts.len() + 1).min(3)));
+        // table t(id, v, w)
+        let schema = Arc::new(Schema::new(vec![
+            Field::new("id", DataType::Int64, false),
+            Field::new("v", DataType::FixedSizeList(Arc::new(Field::new("item", DataType::Float32, true)), dim as i32), true),
+            Field::new(
+                "w",
+                DataType::FixedSizeList(Arc::new(Field::new("item", DataType::Float32, true)), c.w.dim as i32),
+                true,
+            ),
+        ]));
+        let ids: ArrayRef = Arc::new(Int64Array::from((0..n as i64).collect::<Vec<_>>()));
+        let whole = RecordBatch::try_new(schema.clone(), vec![ids, c.v.build(), c.w.build()]).expect("batch");
+        let mut bounds = vec![0usize];
+        bounds.extend(c.cuts.iter().copied());
+        bounds.push(n);
+        let batches: Vec<RecordBatch> = bounds.windows(2).map(|w| whole.slice(w[0], w[1] - w[0])).collect();
+        let mut ctx = ExecutionContext::new();
+        ctx.register_table("t", schema, batches);
+        let f = c.kind.sql();
+        let sql = match c.form {
+            0 => format!("SELECT id, {}(v, {}) AS d FROM t", f, lit_sql(&lit)),
+            1 => format!("SELECT id, {}({}, v) AS d FROM t", f, lit_sql(&lit)),
+            _ => format!("SELECT id, {}(v, w) AS d FROM t", f),
+        };
+        let mismatch = if c.form == 2 { c.w.dim != dim } else { lit.len() != dim };
+        let ans = run_sql_full(&ctx, &sql);
+        if mismatch {
+            obs.label("dimension-mismatch");
+            return match ans {
+                Err(e) if crate::engine::is_panic(&e) => Verdict::Fail(format!("panic on a dimension mismatch: {}\n  {}", e, sql)),
+                Err(_) => Verdict::Pass,
+                // no rows => the function was never evaluated
+                Ok(a) if a.rows.is_empty() && n == 0 => Verdict::Pass,
+                Ok(a) => Verdict::Fail(format!(
+                    "dimension mismatch returned {} rows instead of an error\n  {}",
+                    a.rows.len(),
+                    &sql[..sql.len().min(300)]
+                )),
+            };
+        }
+        let ans = match ans {
+            Ok(a) => a,
+            Err(e) => return Verdict::Fail(format!("query failed: {}\n  {}", e, &sql[..sql.len().min(400)])),
+        };
+        // collect id -> d
+        let mut got: Vec<Option<Option<f64>>> = vec![None; n];
+        let mut count = 0;
+        for b in &ans.batches {
+            let (Some(id), Some(d)) = (
+                b.column(0).as_any().downcast_ref::<Int64Array>(),
+                b.column(1).as_any().downcast_ref::<Float64Array>(),
+            ) else {
+                return Verdict::Fail(format!("unexpected result types {:?}", b.schema()));
+            };
+            for r in 0..b.num_rows() {
+                let i = id.value(r) as usize;
+                if i >= n || got[i].is_some() {
+                    return Verdict::Fail(format!("row id {} invented or duplicated", i));
+                }
+                got[i] = Some(if d.is_null(r) { None } else { Some(d.value(r)) });
+                count += 1;
+            }
+        }
+        if count != n {
+            return Verdict::Fail(format!("{} rows in the table, {} rows in the result", n, count));
+        }
+        let mut any_valid = false;
+        let mut any_null = false;
+        for i in 0..n {
+            let a_valid = c.v.rows[i].valid;
+            let (b_valid, b): (bool, Vec<f32>) = if c.form == 2 { (c.w.rows[i].valid, c.w.row(i)) } else { (true, lit.clone()) };
+            let g = got[i].unwrap();
+            if !a_valid || !b_valid {
+                any_null = true;
+                if g.is_some() {
+                    return Verdict::Fail(format!("row {}: NULL vector operand but SQL returned {:?}\n  {}", i, g, &sql[..sql.len().min(300)]));
+                }
+                continue;
+            }
+            any_valid = true;
+            if let Err(e) = judge_row(c.kind, &c.v.row(i), &b, g, &format!("SQL row id={}", i), obs) {
+                return Verdict::Fail(format!("{}\n  {}", e, &sql[..sql.len().min(300)]));
+            }
+        }
+        obs.nontrivial(any_valid && (dim % 8 != 0 || (any_null && c.cuts.len() >= 1)));
+        Verdict::Pass
+    }
+}
 
 pub fn property() -> Property {
-    Property { id: "C38", level: "exploration", assumptions: &[], checks: vec![] }
+    Property {
+        id: "C38",
+        level: "exploration",
+        assumptions: &[
+            "vector components are exactly 0 or have 1e-15 <= |x| <= 1e15: the kernels multiply/accumulate in f32 lanes by design, so outside that range f32 overflow/underflow (not the formula) decides the result; the tolerance 4*d*eps_f32*sum|terms| + 1e-6 (propagated through sqrt and the cosine quotient) is only sound inside it",
+            "zero-norm cosine is 0/0 in the documented formula and vector.rs states no convention in words; asserted: the result is finite and cosine_distance = 1 - cosine_similarity (the observed value is recorded as a label)",
+            "SQL cases use components k/512 (|x| <= 16384) so the decimal literal, its f64 parse and the f32 narrowing are all exact",
+        ],
+        checks: vec![Box::new(Kernels), Box::new(ThroughSql)],
+    }
 }
